@@ -579,7 +579,7 @@ func (c *converter) sliceAssignmentString(name string, index string, value strin
 }
 
 func (c *converter) sliceEvaluationString(name string, index string) string {
-	return fmt.Sprintf(`$(eval "echo \${%s[%s]}")`, name, index)
+	return fmt.Sprintf(`$(eval "echo \"\${%s[%s]}\"")`, name, index) // Quote the element to prevent word splitting.
 }
 
 func (c *converter) sliceLenString(name string) string {
